@@ -76,7 +76,7 @@ def cases(rng, tier):
     for i in range(n):
         a = G.gen_array(rng, depth=rng.choice([1, 2, 3, 3, 4]), canonical_too=False,
                         type_kw=dict(allow_union=rng.random() < 0.05, allow_rec=rng.random() < 0.5),
-                        enc_kw=dict(weird_empty=0.08))
+                        enc_kw=dict(weird_empty=0.08, strided=0.08))
         t = a['type']
         items = rand_items(rng, t, a['vals'])
         if G.has_empty_rec(t):
